@@ -37,6 +37,14 @@ type verifOp struct {
 	id      string
 	deploys *[]verifDeploy
 	log     *[]string
+	hold    *verifHold
+}
+
+// verifHold lets the harness keep an operator's Deploy call open (a slow deployment).
+type verifHold struct {
+	on      bool
+	waiting int
+	gate    chan struct{}
 }
 
 type verifStarted struct {
@@ -54,6 +62,11 @@ type verifDeploy struct {
 func (o *verifOp) ID() string   { return o.id }
 func (o *verifOp) Host() string { return "h" }
 func (o *verifOp) Deploy(ctx context.Context, req *workerpb.DeployOperatorRequest) error {
+	if o.hold != nil && o.hold.on {
+		o.hold.waiting++
+		<-o.hold.gate
+		o.hold.waiting--
+	}
 	d := verifDeploy{target: o.id, runners: req.SourceRunnerIds, ckpts: len(req.Checkpoints)}
 	for _, n := range req.Operators {
 		d.operators = append(d.operators, n.Id)
@@ -274,19 +287,20 @@ type verifJobEnv struct {
 	deploys []verifDeploy
 	started []verifStarted
 	loc     *verifJobLoc
+	hold    *verifHold
 
 	splitterStarts []*snapshotpb.SourceCheckpoint
 }
 
 func verifNewJob(workers int) *verifJobEnv {
-	e := &verifJobEnv{clock: newVerifClock(), loc: &verifJobLoc{}}
+	e := &verifJobEnv{clock: newVerifClock(), loc: &verifJobLoc{}, hold: &verifHold{gate: make(chan struct{})}}
 	job, err := New(&NewParams{
 		JobConfig:         &config.Config{WorkerCount: workers, KeyGroupCount: 8, WorkingStorageLocation: "memory:///w", Sources: []connectors.SourceConfig{verifSource{starts: &e.splitterStarts}}},
 		Clock:             e.clock,
 		HeartbeatDeadline: 5 * time.Second,
 		Store:             e.loc,
 		OperatorFactory: func(senderID string, node *jobpb.NodeIdentity) proto.Operator {
-			return &verifOp{id: node.Id, deploys: &e.deploys}
+			return &verifOp{id: node.Id, deploys: &e.deploys, hold: e.hold}
 		},
 		SourceRunnerFactory: func(node *jobpb.NodeIdentity) proto.SourceRunner {
 			return &verifRunner{id: node.Id, deploys: &e.deploys, started: &e.started}
@@ -447,5 +461,78 @@ func Harness_C15_JobRecovery() {
 		cur := e.job.snapshotStore.CurrentCheckpoint()
 		verif.Assert(cur != nil && cur.Id == nid, "checkpoints-complete-again-after-recovery")
 	}
+	verif.Reached()
+}
+
+// Harness_C15_LossDuringDeploy: the real Job with fake workers; the operator's Deploy call of
+// the first assembly is kept open (a slow deployment) while a member may be lost (deregistered
+// or its heartbeats expire); then the deployment succeeds. The job must not stay running on an
+// assembly with a missing member: it pauses, and runs again on exactly the live nodes once a
+// replacement registers; a checkpoint tick then starts a checkpoint on the new assembly.
+func Harness_C15_LossDuringDeploy() {
+	e := verifNewJob(1)
+	e.hold.on = true
+	e.job.HandleRegisterOperator(&jobpb.NodeIdentity{Id: "o1", Host: "h"})
+	e.job.HandleRegisterSourceRunner(&jobpb.NodeIdentity{Id: "r1", Host: "h"})
+	e.settle()
+	verif.Assert(e.hold.waiting == 1, "deployment-in-progress")
+	verif.Assert(e.job.status.Value() == StatusAssemblyStarting, "job-is-starting-its-assembly")
+	lost := verif.Choose("lost", 3) // 0 nobody, 1 the operator, 2 the source runner
+	how := 0
+	if lost != 0 {
+		how = verif.Choose("how", 2)
+	}
+	switch {
+	case lost == 1 && how == 0:
+		e.job.HandleDeregisterOperator(&jobpb.NodeIdentity{Id: "o1"})
+	case lost == 2 && how == 0:
+		e.job.HandleDeregisterSourceRunner(&jobpb.NodeIdentity{Id: "r1"})
+	case lost != 0:
+		// the other member keeps heartbeating; the lost one stops
+		for i := 0; i < 2; i++ {
+			e.clock.Advance(4 * time.Second)
+			if lost == 1 {
+				e.job.HandleRegisterSourceRunner(&jobpb.NodeIdentity{Id: "r1", Host: "h"})
+			} else {
+				e.job.HandleRegisterOperator(&jobpb.NodeIdentity{Id: "o1", Host: "h"})
+			}
+			e.settle()
+		}
+	}
+	e.settle()
+	// the deployment completes
+	e.hold.on = false
+	e.hold.gate <- struct{}{}
+	e.settle()
+	if lost == 0 {
+		verif.Assert(e.job.status.Value() == StatusRunning, "job-runs-on-a-full-assembly")
+	} else {
+		verif.Assert(e.job.status.Value() != StatusRunning, "job-does-not-run-with-a-member-lost-during-deployment")
+		newOp, newRunner := "o1", "r1"
+		if lost == 1 {
+			newOp = "o2"
+			e.job.HandleRegisterOperator(&jobpb.NodeIdentity{Id: "o2", Host: "h"})
+		} else {
+			newRunner = "r2"
+			e.job.HandleRegisterSourceRunner(&jobpb.NodeIdentity{Id: "r2", Host: "h"})
+		}
+		e.settle()
+		verif.Assert(e.job.status.Value() == StatusRunning, "job-runs-again-after-replacement")
+		n := len(e.deploys)
+		verif.Assert(n >= 2, "replacement-assembly-deployed")
+		if n >= 2 {
+			for _, d := range e.deploys[n-2:] {
+				verif.Assert(len(d.operators) == 1 && d.operators[0] == newOp, "redeployed-to-exactly-the-live-operators")
+				if d.target == newOp {
+					verif.Assert(len(d.runners) == 1 && d.runners[0] == newRunner, "redeployed-with-exactly-the-live-source-runners")
+				}
+			}
+		}
+	}
+	// checkpointing works on the assembly that runs now
+	startedBefore := len(e.started)
+	e.clock.TickEvery("checkpointing")
+	e.settle()
+	verif.Assert(len(e.started) == startedBefore+1, "checkpoint-tick-starts-a-checkpoint")
 	verif.Reached()
 }
